@@ -410,7 +410,7 @@ PROPS['C11'] = {
     'quick_configs': ['default'],
     'thorough_configs': ALL,
     'controls': ['R11.1', 'R11.2'],
-    'floors': {'default': {'R11.1': 7, 'R11.3': 4, 'R10.4.hint': 1, 'R3.8': 1}},
+    'floors': {'default': {'R11.1': 6, 'R11.2.adapter': 1, 'R11.3': 4, 'R10.4.hint': 1, 'R3.8': 1}},
     'rule_text': 'one obligation per raw device-write site (closed set; each must be dominated by a successful seek whose '
                  'offset provenance is in an allowed class), per clipping site (File::write, DiskSlice read/write/seek), '
                  'plus the allocator bounds (hint clamp, padding entries; C10 rules) and the truncate order (C03 rule)',
